@@ -170,6 +170,13 @@ func execBuild(toks []string) string {
 	r := guard(func() {
 		h := parseHdr(findTok(toks, "H("))
 		as := parseAVPs(findTok(toks, "["))
+		// asm=<g|v|d...>: other legal ways of putting the same AVPs together (see reassemble)
+		asm, _ := kvGet(toks, "asm")
+		if asm != "" {
+			for i := range as {
+				as[i] = reassemble(as[i], asm)
+			}
+		}
 		m := diam.NewMessage(h.CommandCode, h.CommandFlags, h.ApplicationID, h.HopByHopID, h.EndToEndID, dictByName(d))
 		var hlens []string
 		for i, a := range as {
@@ -189,7 +196,11 @@ func execBuild(toks []string) string {
 				}
 			default:
 				// Message.NewAVP builds the AVP itself
-				m.NewAVP(a.Code, a.Flags, a.VendorID, a.Data)
+				fl := a.Flags
+				if strings.Contains(asm, "v") && a.VendorID != 0 {
+					fl &^= 0x80
+				}
+				m.NewAVP(a.Code, fl, a.VendorID, a.Data)
 			}
 			hlens = append(hlens, strconv.Itoa(int(m.Header.MessageLength)))
 		}
@@ -227,6 +238,39 @@ func execBuild(toks []string) string {
 		return "ser=" + r
 	}
 	return out
+}
+
+// reassemble builds the same AVP in another legal way:
+//   g  a grouped AVP is wrapped with NewAVP while its group is still empty and filled afterwards
+//      with GroupedAVP.AddAVP (at every depth)
+//   v  a vendor id is passed with flags that lack the V bit (NewAVP sets it)
+//   d  the AVP is created around a value of another size and its Data field assigned afterwards
+func reassemble(a *diam.AVP, mode string) *diam.AVP {
+	fl := a.Flags
+	if strings.Contains(mode, "v") && a.VendorID != 0 {
+		fl &^= 0x80
+	}
+	if g, ok := a.Data.(*diam.GroupedAVP); ok && strings.Contains(mode, "g") {
+		g2 := &diam.GroupedAVP{}
+		a2 := diam.NewAVP(a.Code, fl, a.VendorID, g2)
+		for _, c := range g.AVP {
+			g2.AddAVP(reassemble(c, mode))
+		}
+		return a2
+	}
+	if g, ok := a.Data.(*diam.GroupedAVP); ok {
+		g2 := &diam.GroupedAVP{}
+		for _, c := range g.AVP {
+			g2.AVP = append(g2.AVP, reassemble(c, mode))
+		}
+		return diam.NewAVP(a.Code, fl, a.VendorID, g2)
+	}
+	if strings.Contains(mode, "d") {
+		a2 := diam.NewAVP(a.Code, fl, a.VendorID, datatype.OctetString("a placeholder of another size"))
+		a2.Data = a.Data
+		return a2
+	}
+	return diam.NewAVP(a.Code, fl, a.VendorID, a.Data)
 }
 
 // ---- answer (C16): request read from a multistream reader so that it carries a stream
@@ -957,7 +1001,11 @@ func genCodec(r *RNG, n int, which string, emit func(string)) {
 	for i := 0; i < n; i++ {
 		switch which {
 		case "build":
-			emit(genMessage(r).buildLine())
+			line := genMessage(r).buildLine()
+			if r.Chance(40) {
+				line += " asm=" + []string{"g", "v", "d", "gv", "gd", "gvd"}[r.Intn(6)]
+			}
+			emit(line)
 		case "decode":
 			k := r.Intn(100)
 			switch {
